@@ -38,4 +38,5 @@ def with_state_lint(prop, run):
             shared.no_param_inplace_update(check, rels)
             shared.local_memo_tables(check, rels)
             shared.no_live_view_in_mutating_loop(check, rels)
+            shared.no_shared_object_filled_per_iteration(check, rels)
     return wrapped
